@@ -57,6 +57,40 @@ Definition update_from_list (s : slot) (l : list pair_t) : slot :=
 Section WithIdna.
 Variable idna : list N -> option (list N).
 
+(* ---------- object-level operations on slots (C05/C06) ---------- *)
+Inductive obj_op := OCopyAssign | OCopyCtor | OMoveAssign | OMoveCtor | OSafeAssign | OSwap.
+
+(* moved-from objects are left in the empty state; move construction / assignment takes the
+   query object of the source along, safe_assign leaves it with the source *)
+Definition moved_from_keep_sp (s : slot) : slot := mk_slot None (s_has_sp s) [].
+Definition moved_from_lose_sp : slot := mk_slot None false [].
+
+(* (destination, source) after the operation *)
+Definition pair_op (o : obj_op) (sd ss : slot) : slot * slot :=
+  match o with
+  | OCopyAssign =>
+      (* memberwise copy; the destination keeps its own query object, refilled *)
+      (mk_slot (s_url ss) (s_has_sp sd)
+         (if s_has_sp sd then (if s_has_sp ss then s_sp ss else parse_query_list (s_url ss)) else []), ss)
+  | OCopyCtor => (mk_slot (s_url ss) false [], ss)
+  | OMoveAssign | OMoveCtor => (mk_slot (s_url ss) (s_has_sp ss) (s_sp ss), moved_from_lose_sp)
+  | OSafeAssign =>
+      if s_has_sp sd then
+        (mk_slot (s_url ss) true (if s_has_sp ss then s_sp ss else parse_query_list (s_url ss)), moved_from_keep_sp ss)
+      else (mk_slot (s_url ss) false [], moved_from_keep_sp ss)
+  | OSwap => (ss, sd)
+  end.
+
+Definition slot_after_parse (sl : slot) (r : option url) : slot :=
+  match r with
+  | Some u => resync sl (Some u)
+  | None => mk_slot None (s_has_sp sl) (s_sp sl)
+  end.
+Definition slot_clear (sl : slot) : slot := mk_slot None (s_has_sp sl) [].
+(* url::search_params(): creates the query object on first use *)
+Definition slot_sp_create (sl : slot) : slot :=
+  if s_has_sp sl then sl else mk_slot (s_url sl) true (parse_query_list (s_url sl)).
+
 (* ---------- hex / printing ---------- *)
 Definition hex2 (b : N) : str := [hex_digit_upper (b / 16); hex_digit_upper (b mod 16)].
 Definition hx (s : str) : str := match s with [] => [45] | _ => flat_map hex2 s end.
@@ -232,5 +266,10 @@ Definition apply_spop (l : list pair_t) (op : spop) : list pair_t * bool * str :
   | OpClear => ([], true, [])
   | OpAssign l' => (l', true, [])
   end.
+
+(* a query-object operation on the (existing) query object of a slot *)
+Definition slot_sp_apply (sl : slot) (op : spop) : slot * str * list pair_t :=
+  let '(l', upd, extra) := apply_spop (s_sp sl) op in
+  (if upd then update_from_list sl l' else mk_slot (s_url sl) true l', extra, l').
 
 End WithIdna.
